@@ -118,7 +118,7 @@ def run(ctx):
         "memory model Babylon/Core/MemView.lean: operational release/acquire views with SC fences; strengthenings S1-S3 of its header (modification order = execution order, no load buffering, a seq_cst RMW is a full fence as on x86); covers TSO / ARMv8-style store-buffer delays, not load-buffering / out-of-thin-air executions",
         "vrt/vrt.cpp (TSan-ABI interposition, deterministic scheduler) and the TSan-instrumented build; VRT executes sequentially consistent interleavings, so the weak-memory content of the property rests on the theorems plus the generated order / skeleton obligations, the executions only validate the model's protocol",
         "IdAllocator (free list, property C14) enters as its specification: ids unique while held; deallocate(i) happens-before the allocate() that returns i again; ConcurrentVector growth (C04) as: the block table only grows",
-        "client contract (hypotheses of the theorems, checked on every replayed execution): unlock pairs with lock, an Accessor is released with no region open, an Accessor is handed to another thread only through release/acquire synchronisation, thread-local and Accessor style are not mixed on one Epoch, the unlink precedes tick() in program order, reclamation of epoch e is triggered only by a low_water_mark() >= e that happens after the tick",
+        "client contract (hypotheses of the theorems, checked on every replayed execution): unlock pairs with lock, a thread does not exit inside a thread-local region (an Accessor may be released at any time since fix 6566b0b), an Accessor is handed to another thread only through release/acquire synchronisation, thread-local and Accessor style are not mixed on one Epoch, the unlink precedes tick() in program order, reclamation of epoch e is triggered only by a low_water_mark() >= e that happens after the tick",
         "NoWrap: fewer than 2^64 ticks",
     ]
     ctx.gen(["epoch"])
@@ -196,5 +196,5 @@ def replay(ctx, path):
 MANIFEST = {
     "technique": "Lean 4 proof over a weak-memory (release/acquire view) transition system: inductive invariants over all interleavings, stale reads, thread counts and programs, with the Dekker argument through SC-fence views; translator-generated order / skeleton obligations; lock-step replay of real executions under a deterministic scheduler",
     "text": "Theorems in lean/Babylon/Properties/C09.lean hold for every execution of the view-memory model (any admissible stale read at every load, any number of threads / accessors / ticks / scans, nesting, hand-over, slot reuse, table growth); each model step is one atomic operation of the real Epoch with the memory order extracted from the source, and every VRT trace of the real code is checked to be a path of the model",
-    "note": "Trusted: Lean kernel + 3 standard axioms; gen/epoch.py; MemView strengthenings S1-S3 (x86-style seq_cst RMW = full fence); vrt/ (SC interleavings only); IdAllocator / ConcurrentVector by their specifications; client contract listed in the evidence; the non-x86 branch of tick is analysed separately (counterexample theorem)",
+    "note": "Trusted: Lean kernel + 3 standard axioms; gen/epoch.py; MemView strengthenings S1-S3 (x86-style seq_cst RMW = full fence); vrt/ (SC interleavings for the lock-step pass, view-model stale reads for the oracle-only pass); IdAllocator / ConcurrentVector by their specifications; client contract listed in the evidence; the non-x86 branch of tick is analysed separately (counterexample theorem epoch_tick_nonx86_counterexample)",
 }
